@@ -159,6 +159,7 @@ package message
 //@   ensures [same-array] (*options)[0:0] == old(*options)[0:0] && cap(*options) == cap(old(*options))
 //@   ensures [fields] err == nil ==> decodedOpts(*options, len(old(*options)), data, optionDefs, #n0)
 //@   ensures [prefix-kept] forall i int :: {(*options)[i].ID} 0 <= i && i < len(old(*options)) ==> (*options)[i] == old((*options)[i])
+//@   ensures [sorted-when-started-empty] len(old(*options)) == 0 ==> sortedOpts(*options)
 //@   loop 0:
 //@     modifies *options, (*options)[len(*options) : cap(*options)]
 //@     invariant 0 <= #iter
@@ -170,6 +171,7 @@ package message
 //@     invariant len(*options) == len(old(*options)) + nKept(old(data), optionDefs, #iter) && nKept(old(data), optionDefs, #iter) >= 0
 //@     invariant forall j int :: {rawStart(old(data), j)} 0 <= j && j < #iter && keptRaw(old(data), optionDefs, j) ==> 0 <= nKept(old(data), optionDefs, j) && nKept(old(data), optionDefs, j) < nKept(old(data), optionDefs, #iter) && (*options)[len(old(*options)) + nKept(old(data), optionDefs, j)].ID == rawNum(old(data), j+1) && (*options)[len(old(*options)) + nKept(old(data), optionDefs, j)].Value == old(data)[rawValPos(old(data), j) : rawValPos(old(data), j) + rawLen(old(data), rawStart(old(data), j))]
 //@     invariant forall i int :: {(*options)[i].ID} 0 <= i && i < len(old(*options)) ==> (*options)[i] == old((*options)[i])
+//@     invariant [sorted-so-far] len(old(*options)) == 0 ==> sortedOpts(*options) && (forall i int :: {(*options)[i].ID} 0 <= i && i < len(*options) ==> (*options)[i].ID <= prev)
 //@     decreases len(data)
 //
 //@ func ValidateMID(mid int32) (r bool)
